@@ -225,7 +225,7 @@ def r05_2(prog, rep, rid='R05.2'):
                 isinstance(t.slice, ast.Constant) and
                 t.slice.value == 'target_state' for t in n.ast.targets):
             sets.append((n, prog.fold(f.module, n.ast.value)))
-    if len(sets) < 2:
+    if not sets:
         raise AnalysisError('UNRECOGNISED-IDIOM %s: target_state assignments'
                             % f.where)
     # the exit code variable: result of .poll()
@@ -240,23 +240,45 @@ def r05_2(prog, rep, rid='R05.2'):
         raise AnalysisError('UNRECOGNISED-IDIOM %s: exit code variable'
                             % f.where)
 
+    def atom_zero(a, lab):
+        """'zero' / 'nonzero' / None: what the test `a`, taken with the
+        outcome lab, says about ec == 0"""
+        if isinstance(a, ast.UnaryOp) and isinstance(a.op, ast.Not):
+            return atom_zero(a.operand, 'F' if lab == 'T' else 'T')
+        if isinstance(a, ast.Compare) and len(a.ops) == 1 and \
+                ec in {x.id for x in walk(a) if isinstance(x, ast.Name)} \
+                and isinstance(a.comparators[0], ast.Constant) and \
+                a.comparators[0].value == 0:
+            eq = isinstance(a.ops[0], ast.Eq)
+            ne = isinstance(a.ops[0], ast.NotEq)
+            if eq or ne:
+                return 'zero' if (lab == 'T') == eq else 'nonzero'
+        if isinstance(a, ast.Name) and a.id == ec:
+            return 'nonzero' if lab == 'T' else 'zero'
+        return None
+
     def zero_guard(nid):
         """'zero' / 'nonzero' / None: what the guards say about ec == 0"""
         for tid, lab in guards(g, nid):
-            a = g.nodes[tid].ast
-            if isinstance(a, ast.Compare) and len(a.ops) == 1 and \
-                    ec in {x.id for x in walk(a) if isinstance(x, ast.Name)} \
-                    and isinstance(a.comparators[0], ast.Constant) and \
-                    a.comparators[0].value == 0:
-                eq = isinstance(a.ops[0], ast.Eq)
-                ne = isinstance(a.ops[0], ast.NotEq)
-                if eq or ne:
-                    return 'zero' if (lab == 'T') == eq else 'nonzero'
-            if isinstance(a, ast.Name) and a.id == ec:
-                return 'nonzero' if lab == 'T' else 'zero'
+            z = atom_zero(g.nodes[tid].ast, lab)
+            if z is not None:
+                return z
         return None
+    # `t['target_state'] = A if <test> else B` (a subscript target is not
+    # split by the canonical form): one case per arm, guarded by the test
+    cases = []
     for n, v in sets:
-        zg = zero_guard(n.id)
+        if isinstance(n.ast.value, ast.IfExp):
+            x = n.ast.value
+            for arm, lab in ((x.body, 'T'), (x.orelse, 'F')):
+                cases.append((n, prog.fold(f.module, arm),
+                              zero_guard(n.id) or atom_zero(x.test, lab)))
+        else:
+            cases.append((n, v, zero_guard(n.id)))
+    if len(cases) < 2:
+        raise AnalysisError('UNRECOGNISED-IDIOM %s: target_state assignments'
+                            % f.where)
+    for n, v, zg in cases:
         if v == done:
             rep.check(zg == 'zero', rid, f, 'target_state = DONE only under '
                       'exit code 0', construct=n.ast, message='Popen.'
@@ -1957,6 +1979,8 @@ def _falsy_const_expr(v):
 def _awaited(atom, lab):
     """(state attr, constant key tail) if the branch (atom, lab) is taken when
     self.<attr>[k]<tail> is missing / falsy"""
+    if isinstance(atom, ast.UnaryOp) and isinstance(atom.op, ast.Not):
+        return _awaited(atom.operand, 'F' if lab == 'T' else 'T')
     ch = _self_chain(atom)
     if ch and ch[1] and lab == 'F':
         tail = []
